@@ -25,7 +25,7 @@ PROPERTY = "C15"
 
 MANIFEST = {
     "technique": "TLA+ specification of biotite's geometry / box / transform functions on the integer lattice (specs/C15, specs/lib/Lattice.tla) model-checked by TLC; TLC's exact values for every enumerated case replayed against the real functions; recorded larger executions re-computed by TLC",
-    "level_text": "TLC enumerates four-atom configurations with all bond vectors in {-1,0,1}^3 (wrapped across seven periodic boxes by lattice shifts), all displacements in a cube against nine boxes (orthorhombic, rotated-orthogonal, triclinic, left-handed, heavily skewed), unit cells with cosines 0,+-1/2, wrapped molecules (chains, stars, interleaved and multiple molecules) and point sets under translate/rotate/rotate_centered/rotate_about_axis/align_vectors, and checks: code-shaped = textbook definitions, invariance under the 24 lattice rotations x translations, sign flip of the dihedral under the 24 rotoreflections, periodic displacement = plain difference + lattice vector and a shortest image (always for orthogonal boxes, under the half-height condition for triclinic ones), move_inside_box / fractions / unit-cell conversions mutually inverse, remove_pbc restoring molecules with the centroid in the box. Every expected value is compared with the real functions in all documented array shapes; systems of up to 20 atoms and 3 models are recorded and re-computed by TLC.",
+    "level_text": "TLC enumerates four-atom configurations with all bond vectors in {-1,0,1}^3 (wrapped across eleven periodic boxes by lattice shifts), all displacements in a cube against twelve boxes (orthorhombic, rotated-orthogonal, left-handed, heavily skewed, triclinic with every zero/non-zero combination of the three tilts), unit cells with cosines 0,+-1/2, wrapped molecules (chains, stars, interleaved and multiple molecules; every atom shifted independently, and every subset of atoms lying beyond each of the six faces of cubic, anisotropic and elongated boxes whose long axis is a, b or c) and point sets under translate/rotate/rotate_centered/rotate_about_axis/align_vectors, and checks: code-shaped = textbook definitions, invariance under the 24 lattice rotations x translations, sign flip of the dihedral under the 24 rotoreflections, periodic displacement = plain difference + lattice vector and a shortest image (always for orthogonal boxes, under the half-height condition for triclinic ones), move_inside_box / fractions / unit-cell conversions mutually inverse, remove_pbc restoring molecules with the centroid in the box. Every expected value is compared with the real functions in all documented array shapes; systems of up to 20 atoms and 3 models are recorded and re-computed by TLC.",
     "level_note": "Restricted to integer / dyadic coordinates and boxes and to the 48 elements of the cube group: invariance under general rotations and every effect of float rounding are NOT decided. Angles are compared through cos / atan2 of TLC's exact integers (tolerance 2e-5 on the cosine, 2e-4 rad on dihedrals, 1e-4 on coordinates). Periodic angle/dihedral values are compared only where the minimum images are unique (ties are unspecified). orient_principal_components and dihedral_backbone are not modelled. Trusted: TLC, the TLA+ value parser, numpy.",
 }
 
@@ -305,8 +305,11 @@ def do_unwrap(R, pay, out):
     dt = np.float32 if R.idx % 2 == 0 else np.float64
     box = _arr(B, dt)
     coord = _arr(C, dt)
+    # in the multi-model variants the first model has another box (per-model boxes); the
+    # second model is the case
+    other = box * 2 if R.idx % 4 >= 2 else box
     if R.idx % 3 == 1:
-        got = struc.remove_pbc_from_coord(np.stack([coord, coord]), np.stack([box, box]))[1]
+        got = struc.remove_pbc_from_coord(np.stack([coord, coord]), np.stack([other, box]))[1]
     else:
         got = struc.remove_pbc_from_coord(coord, box)
     R.calls += 2
@@ -332,15 +335,21 @@ def do_unwrap(R, pay, out):
     else:
         st = struc.AtomArrayStack(2, n)
         st.coord = np.stack([coord, coord]).astype(np.float32)
-        st.box = np.stack([box, box]).astype(np.float32)
+        st.box = np.stack([other, box]).astype(np.float32)
         st.bonds = bl
         got = struc.remove_pbc(st).coord[1]
     gi, exact = _rint(got)
     if not exact or not all(_is_lattice([gi[k][i] - C[k][i] for i in range(3)], adj, det) for k in range(n)):
         R.bad("remove_pbc", "every atom moved by a lattice vector", np.asarray(got).tolist(), relation="lattice")
     elif face_free and gi != Rr:
-        # (a centroid exactly on a box face may be placed on either side: only the lattice relation is required)
         R.bad("remove_pbc", Rr, gi)
+    elif not face_free:
+        # a centroid exactly on a box face may be placed on either side (a lattice vector per
+        # molecule): the vectors between bonded atoms are the model's all the same
+        exp = [[Rr[max(b) - 1][i] - Rr[min(b) - 1][i] for i in range(3)] for b in bonds]
+        obs = [[gi[max(b) - 1][i] - gi[min(b) - 1][i] for i in range(3)] for b in bonds]
+        if exp != obs:
+            R.bad("remove_pbc", exp, obs, relation="vectors between bonded atoms")
 
 
 # --------------------------------------------------------------------------- "xform"
@@ -404,6 +413,27 @@ DO = {"geom": do_geom, "vecbox": do_vecbox, "cell": do_cell, "boxcell": do_boxce
       "unwrap": do_unwrap, "xform": do_xform}
 
 
+def _short_face_cut(case):
+    """(long axis, crossed axis, sign, orthogonal?) when the unwrap case is a molecule of which a
+    proper non-empty subset lies beyond ONE face of an elongated box (2 x shortest edge <= longest)
+    and that face is crossed along a short edge; else None."""
+    if case[0] != "unwrap":
+        return None
+    _T, _bonds, sh, B = case[1]
+    nz = {tuple(x) for x in sh if any(x)}
+    if len(nz) != 1 or all(any(x) for x in sh):
+        return None
+    f = next(iter(nz))
+    if sum(abs(v) for v in f) != 1:
+        return None
+    axis = [i for i in range(3) if f[i]][0]
+    n2 = [sum(v * v for v in row) for row in B]
+    if 4 * n2[axis] > max(n2):
+        return None
+    ortho = all(sum(B[i][k] * B[j][k] for k in range(3)) == 0 for i in range(3) for j in range(i))
+    return (n2.index(max(n2)), axis, f[axis], ortho)
+
+
 def warmup():
     import biotite.structure  # noqa: F401
 
@@ -443,7 +473,17 @@ S3_BOXES = [
     [[4, 0, 0], [0, 4, 0], [0, 0, 4]], [[8, 0, 0], [0, 4, 0], [0, 0, 4]], [[4, 0, 0], [2, 4, 0], [0, 0, 4]],
     [[8, 0, 0], [-2, 4, 0], [2, 2, 4]], [[2, 2, 0], [-2, 2, 0], [0, 0, 4]], [[0, 4, 0], [4, 0, 0], [0, 0, 4]],
     [[8, 0, 0], [0, 8, 0], [0, 0, 8]], [[4, 0, 0], [6, 4, 0], [0, 2, 4]], [[16, 0, 0], [0, 8, 0], [4, 0, 8]],
+    # one tilt only (a.c / b.c), two tilts with b.c = 0
+    [[4, 0, 0], [0, 4, 0], [2, 0, 4]], [[4, 0, 0], [0, 4, 0], [0, 2, 4]], [[4, 0, 0], [2, 4, 0], [2, -1, 4]],
 ]
+# boxes of the recorded remove_pbc calls: cubic, moderately anisotropic, and elongated ones
+# (long axis a, b or c; orthorhombic and triclinic)
+S3_UNWRAP_BOXES = [
+    S3_BOXES[1], S3_BOXES[3], S3_BOXES[6], S3_BOXES[8],
+    [[32, 0, 0], [0, 4, 0], [0, 0, 8]], [[4, 0, 0], [0, 16, 0], [0, 0, 4]], [[8, 0, 0], [0, 4, 0], [0, 0, 32]],
+    [[16, 0, 0], [-2, 4, 0], [2, 2, 4]], [[4, 0, 0], [2, 4, 0], [-2, 2, 16]], [[4, 0, 0], [2, 16, 2], [0, 0, 4]],
+]   # all inside GeomOps!Dom_DyadicBox (power-of-two determinant), like S3_BOXES
+S3_CUTS = [[1, 0, 0], [-1, 0, 0], [0, 1, 0], [0, -1, 0], [0, 0, 1], [0, 0, -1], [1, 1, 0], [0, -1, 1], [-1, 1, -1]]
 KK = 10000
 
 
@@ -556,7 +596,7 @@ def gen_trace(item):
             gi, exact = _rint(got)
             events.append({"op": "rigid", "P": P, "e": e, "t": t, "got": gi if exact else [[99, 99, 99]] * n})
         else:
-            B = rng.choice([S3_BOXES[1], S3_BOXES[3], S3_BOXES[6], S3_BOXES[8]])
+            B = rng.choice(S3_UNWRAP_BOXES)
             nm = rng.randint(1, 3)
             T, bonds = [], []
             for _m in range(nm):
@@ -570,9 +610,16 @@ def gen_trace(item):
                     step[rng.randrange(3)] = rng.choice([-1, 1])
                     T.append([q[i] + step[i] for i in range(3)])
                     bonds.append([T.index(q, start) + 1, len(T)])
+            # wrapping: every atom by a random lattice vector, or (half of the events) the
+            # system cut by ONE face / edge / corner of the box: the atoms of a random subset
+            # lie beyond it
+            cut = rng.choice(S3_CUTS) if rng.random() < 0.5 else None
             C = []
             for p in T:
-                kvec = [rng.randint(-1, 1) for _ in range(3)]
+                if cut is None:
+                    kvec = [rng.randint(-1, 1) for _ in range(3)]
+                else:
+                    kvec = cut if rng.random() < 0.5 else [0, 0, 0]
                 C.append([p[i] + sum(kvec[r] * B[r][i] for r in range(3)) for i in range(3)])
             n = len(C)
             progress({"op": "unwrap", "C": C, "bonds": bonds, "B": B})
@@ -624,6 +671,7 @@ def run(ctx):
 
     quick = ctx.quick
     ctx.assumptions += [
+        "Dom_DyadicBox: box determinants are powers of two, so that fractional coordinates of lattice points are exact in floating point (with another determinant a point exactly on a box face is placed on either side, depending on rounding)",
         "coordinates, translations and box vectors are integers (float32/float64 exact); rotations are the 24 proper elements of the cube group (Euler quarter turns, quarter/half/third turns about lattice axes), reflections the 24 improper ones",
         "Dom_MinImage: minimality of the periodic displacement is required for orthogonal boxes always and for triclinic boxes only when the shortest image is shorter than half the smallest box height",
         "periodic angles / dihedrals / displacement vectors are compared only where the minimum images involved are unique (ties between equally short images are unspecified)",
@@ -655,6 +703,16 @@ def run(ctx):
     ctx.cov["geom_periodic_unique"] = uniq
     if not (inrange and outrange and uniq):
         raise Vacuity("guards of the periodic claims never true/false")
+    # the class "molecule cut by a SHORT face of an elongated box": every (long axis, crossed face)
+    cuts = {}
+    for c, _o in done:
+        k = _short_face_cut(c)
+        if k:
+            cuts[k] = cuts.get(k, 0) + 1
+    ctx.cov["unwrap_short_face_cuts_in_elongated_boxes"] = sum(cuts.values())
+    ctx.cov["unwrap_short_face_cut_classes"] = len(cuts)
+    if len({(k[0], k[1], k[2]) for k in cuts}) < 12:
+        raise Vacuity(f"molecules cut by a short face of an elongated box: only the classes {sorted(cuts)}")
     ctx.cov["rule"] = "a case is non-trivial when it is periodic with a non-zero wrap, a rotation other than the identity, or a molecule shifted across a box face"
     ctx.nontrivial += sum(1 for c, o in done if
                           (c[0] == "geom" and (c[1][4] or c[1][6] != 1)) or
@@ -702,12 +760,23 @@ def run(ctx):
     ctx.evaluations += nev
     ctx.cov["s3_traces"] = len(traces)
     ctx.cov["s3_events"] = nev
+    ctx.cov["s3_unwrap_events_in_elongated_boxes"] = sum(
+        1 for t in traces for e in t if e["op"] == "unwrap"
+        and 4 * min(sum(v * v for v in r) for r in e["B"]) <= max(sum(v * v for v in r) for r in e["B"]))
     ctx.cov["s3_ops"] = {op: sum(1 for t in traces for e in t if e["op"] == op) for op in ("measure", "rigid", "unwrap")}
     ctx.nontrivial += sum(1 for t in traces if any(e["op"] == "measure" and e["bo"] for e in t))
     if traces:
         ctx.sample({"s3_event": traces[0][0]})
 
+    calls = []
+
     def corrupt(tr):
+        calls.append(1)
+        if len(calls) == 1:                      # the first trace handed over: an unwrap event
+            for e in tr:
+                if e["op"] == "unwrap" and e["gotR"]:
+                    e["gotR"][0][0] += 1          # no lattice vector any more
+                    return True
         for e in tr:
             if e["op"] == "rigid" and e["got"]:
                 e["got"][0][0] += 1
@@ -720,5 +789,6 @@ def run(ctx):
                 return True
         return False
 
-    helpers.binding_selftest(ctx, traces, corrupt)
+    with_unwrap = [t for t in traces if any(e["op"] == "unwrap" for e in t)][:1]
+    helpers.binding_selftest(ctx, with_unwrap + [t for t in traces if t not in with_unwrap][:2], corrupt)
     ctx.log(f"S3: {len(traces)} traces / {nev} events validated by TLC, {nmm} mismatches")
